@@ -190,7 +190,7 @@ def same_members(a, b) -> bool:
 # ---------------------------------------------------------------- generation --------------------------
 MUTATORS = ["add", "discard", "remove", "pop", "clear", "update", "ior", "iand", "isub", "ixor",
             "difference_update", "intersection_update", "symmetric_difference_update"]
-MAKERS = ["new", "copy", "copy2", "union", "or", "and", "sub", "xor", "ror", "difference", "intersection",
+MAKERS = ["new", "copy", "copy2", "deepcopy", "pickle", "union", "or", "and", "sub", "xor", "ror", "difference", "intersection",
           "symmetric_difference", "ordered_union", "ordered_intersect", "ordered_diff"]
 OBSERVERS = ["le", "lt", "ge", "gt", "eq", "ne", "isdisjoint", "issubset", "issuperset", "contains", "len", "repr"]
 PREFIX_SAFE = ("new", "update", "ior", "isub", "difference_update", "union", "ordered_union",
@@ -248,7 +248,7 @@ def generate(run_seed: int, cfg: Dict[str, Any]) -> Dict[str, Any]:
         elif name == "new":
             op["dst"] = r.randrange(NSLOTS)
             op["it"] = None if r.random() < 0.1 else _gen_iter(r, pool_idx, use_iter_fault, allow_slot=True)
-        elif name in ("copy", "copy2"):
+        elif name in ("copy", "copy2", "deepcopy", "pickle"):
             op["dst"] = r.randrange(NSLOTS)
         elif name in ("update", "union"):
             k = r.choice([0, 1, 1, 1, 2, 3])
@@ -411,9 +411,20 @@ def _run(scn, log: EventLog, stats: Stats):
                 if same:
                     stats.probe("inplace-with-self")
                 slots[si] = s  # python rebinds the name to whatever the in-place operator returned
-            elif name in ("copy", "copy2"):
+            elif name in ("copy", "copy2", "deepcopy", "pickle"):
                 new_dst = list(pre[si])
-                res = s.copy() if name == "copy" else _copy.copy(s)
+                if name == "copy":
+                    res = s.copy()
+                elif name == "copy2":
+                    res = _copy.copy(s)
+                elif name == "deepcopy":
+                    res = _copy.deepcopy(s)
+                else:
+                    # F7 restart: operator nodes carry OrderedSets and are pickled (tests cache, C12)
+                    import pickle
+
+                    res = pickle.loads(pickle.dumps(s))
+                    stats.fault("restart")
             elif name == "union":
                 args = [mk(j) for j in op["its"]]
                 st = pre[si]
